@@ -7,9 +7,13 @@ C31 violation found on a trace (stable signature for known findings).
 Discipline (what the real callers of the events wrapper do — the state tracker,
 the bulker, the API handlers):
 
-* `BeginTX` is only called on a wrapper that is not inside a transaction (the
-  wrapper does not support nested transactions: an inner rollback does not
-  remove the events already queued on the outer wrapper);
+* a *raw* `BeginTX` is only called on a wrapper that is not inside a transaction
+  (the wrapper does not support nested transactions in general: an inner rollback
+  does not remove the events already queued on the outer wrapper).  The one
+  nested use in /repo — `handleState` on the facade returned by
+  `controllerFacade.BeginTX`, i.e. the first write inside an atomic bulk on an
+  initializing ledger — is part of the model (`Stack.lean`) and is proved safe
+  because every failure of the inner transaction makes the bulk roll back;
 * `Commit` is not called through a wrapper returned by `LockLedger` inside a
   transaction (its `atCommit` is always empty; the events are queued on the
   wrapper returned by `BeginTX`).
@@ -38,7 +42,7 @@ def opOk (lockInTx : Bool) (s : St) : Op → Bool
     | none => true
     | some w => callOk lockInTx w c
   | .swrite .. => s.inUse || lockInTx
-  | .bulk atomic _ _ _ => atomic || s.inUse || lockInTx
+  | .bulk .. => s.inUse || lockInTx
 
 /-- Every operation of the program respects the discipline in the state it runs in. -/
 def disciplined (lockInTx : Bool) : St → List Op → Bool
